@@ -29,6 +29,7 @@ Definition table : list (string * fam * fam) := [
   ("if_else", F 3 1 3 1, F 3 1 3 1); ("if_cond", F 3 1 3 1, F 3 1 3 1); ("let_bind", F 4 1 4 1, F 4 1 4 1); ("with_env", F 2 1 2 1, F 2 1 2 1);
   ("formal_default", F 4 1 4 1, F 4 1 4 1); ("select_default", F 3 1 3 1, F 3 1 3 1); ("attr_interp", F 2 1 2 1, F 2 1 2 1);
   ("neg", F 2 1 2 1, F 2 1 2 1); ("has", F 2 1 2 1, F 2 1 2 1);
+  ("import_paren", F 4 1 4 1, F 4 1 4 1); ("import_call", F 6 1 6 1, F 6 1 6 1); ("import_set", F 7 1 7 1, F 7 1 7 1);
   ("lam_nl", F 2 2 2 2, F 2 2 2 2); ("with_nl", F 2 2 2 2, F 2 2 2 2); ("let_ml", F 4 1 3 1, F 4 1 3 1)]%string.
 Definition lookup (name : string) (ml : bool) : option fam :=
   match find (fun r => String.eqb (fst (fst r)) name) table with Some (_, a, m) => Some (if ml then m else a) | None => None end.
